@@ -34,6 +34,10 @@ ID = "C11"
 DRIVER = "drv_c11"
 PROPS = ["Ptk.Props.C11Scroll", "Ptk.Props.C11Copy", "Ptk.Props.C11Lines", "Ptk.Props.C11Window",
          "Ptk.Props.C11Rows", "Ptk.Props.C11Procs", "Ptk.Props.C11Doc", "Ptk.Props.C11"]
+ANCHORS = ["src/prompt_toolkit/layout/containers.py", "src/prompt_toolkit/layout/controls.py",
+           "src/prompt_toolkit/layout/processors.py", "src/prompt_toolkit/layout/margins.py",
+           "src/prompt_toolkit/layout/screen.py", "src/prompt_toolkit/utils.py"]
+TECHNIQUE = "machine-checked proof (Lean 4) over an executable model + differential correspondence + property oracle"
 LEVEL_TEXT = ("Lean 4 theorems over an executable model of rendering a focused text window (processors' position "
               "maps, BufferControl content with the trailing blank, get_height_for_line, both scroll algorithms, "
               "Window._copy_body with wrapping / prefixes / horizontal scroll): after every render, for every "
@@ -55,7 +59,7 @@ RULE = ("exhaustive: every text over {a, newline} (and tab when a TabsProcessor 
         "(text longer than one window row or more lines than the height)")
 EXHAUSTIVE = True
 EXHAUSTIVE_SCOPE = {
-    "quick": "texts over {a,\\n} len<=5 (len<=6 plain configuration; {a,\\n,\\t} len<=3 with TabsProcessor) x w 1..4 x h 1..3 x "
+    "quick": "texts over {a,\\n} len<=4 (len<=5 plain configuration; {a,\\n,\\t} len<=3 with TabsProcessor) x w 1..4 x h 1..3 x "
              "wrap x 11 configurations, all cursors",
     "thorough": "texts over {a,\\n} len<=6 (len<=7 for 3 configurations; {a,\\n,\\t} len<=4 with TabsProcessor) x w 1..4 x "
                 "h 1..3 x wrap x 11 configurations, all cursors"}
@@ -161,7 +165,7 @@ def run_case(case, fn):
     async def go():
         rig = Rig(case)
         with set_app(rig.app):
-            for step in case["steps"]:
+            for step in case["ops"]:
                 sc, wp = rig.render(step)
                 out.append(fn(rig, step, sc, wp))
 
@@ -187,6 +191,19 @@ def observe(rig, step, sc, wp):
     toks.append("vl " + " ".join([str(len(vl))] + [f"{y} {r} {c}" for y, (r, c) in vl.items()]))
     rc = ri._rowcol_to_yx
     toks.append("rc " + " ".join([str(len(rc))] + [f"{r} {c} {y} {x}" for (r, c), (y, x) in rc.items()]))
+    # position maps of the cursor line: source_to_display(0..len), display_to_source(0..displaylen+1)
+    doc = rig.buf.document
+    pl = rig.control._last_get_processed_line(doc.cursor_position_row)
+    n = len(doc.current_line)
+    s2d = []
+    for i in range(n + 1):
+        try:
+            s2d.append(str(pl.source_to_display(i)))
+        except KeyError:
+            s2d.append("E")
+    m = sum(len(t) for _, t, *_ in pl.fragments)
+    d2s = [str(pl.display_to_source(j)) for j in range(m + 2)]
+    toks.append("pm " + " ".join([str(len(s2d))] + s2d) + " dm " + " ".join([str(len(d2s))] + d2s))
     rows = []
     for y in range(wp.height):
         row = sc.data_buffer[yoff + y]
@@ -225,7 +242,7 @@ def model_lines(case):
         ("1 " + " ".join(enc_str(p) for p in pre)) if pre is not None else "0 s: s: s:",
         enc_procs(case.get("procs", []))])
     out = [f"init {init[0]} {init[1]} {init[2]}"]
-    for st in case["steps"]:
+    for st in case["ops"]:
         out.append(f"render {st['w']} {st['h']} {'1' if st['wrap'] else '0'} {cfg} {enc_str(st['text'])} {st['cur']}")
     return out
 
@@ -385,7 +402,7 @@ def sweep_case(cfg, text, w, h, wrap):
     n = len(text)
     tw = w + extra_width(cfg, text.count("\n") + 1)
     curs = list(range(n + 1)) + [0, n, n // 2]
-    return dict(cfg, steps=[{"text": text, "cur": c, "w": tw, "h": h, "wrap": wrap} for c in curs])
+    return dict(cfg, ops=[{"text": text, "cur": c, "w": tw, "h": h, "wrap": wrap} for c in curs])
 
 
 def boundary_text(rng, w, alpha):
@@ -438,7 +455,7 @@ def random_case(rng, alpha, tab_always=False):
             if "\n" in text[s0:cur]:
                 cur = s0
         steps.append({"text": text, "cur": cur, "w": w + extra_width(cfg, text.count("\n") + 1), "h": h, "wrap": wrap})
-    cfg["steps"] = steps
+    cfg["ops"] = steps
     return cfg
 
 
@@ -446,14 +463,12 @@ def cases(tier, rng):
     quick = tier == "quick"
     # exhaustive small scope
     for ci, cfg in enumerate(CFGS):
-        if quick:
-            maxlen = 4 if ci == 0 else 3
-        else:
-            maxlen = 5 if ci in (0, 1, 2) else 4
         has_tabs = any(p[0] == "T" for p in cfg.get("procs", []))
         alpha = ALPHA if has_tabs else ALPHA[:2]
-        if not has_tabs:
-            maxlen += 2
+        if quick:
+            maxlen = 3 if has_tabs else (5 if ci == 0 else 4)
+        else:
+            maxlen = 4 if has_tabs else (7 if ci in (0, 1, 2) else 6)
         for n in range(maxlen + 1):
             for tup in itertools.product(alpha, repeat=n):
                 text = "".join(tup)
@@ -477,7 +492,7 @@ def cases(tier, rng):
 
 
 def _scrolls(case):
-    for st in case["steps"]:
+    for st in case["ops"]:
         lines = st["text"].split("\n")
         if len(lines) > st["h"] or any(len(l) + 1 > st["w"] for l in lines):
             return True
@@ -489,8 +504,8 @@ def nontrivial(case):
 
 
 def sample_view(case):
-    if len(case["steps"]) > 3:
-        return dict(case, steps=case["steps"][:3] + [f"... {len(case['steps'])} states through one window"])
+    if len(case["ops"]) > 3:
+        return dict(case, ops=case["ops"][:3] + [f"... {len(case['ops'])} states through one window"])
     return case
 
 
@@ -503,7 +518,7 @@ def distribution(cases):
                 d["cfg"][k] = d["cfg"].get(k, 0) + 1
         if any(c.get("so", [0])):
             d["cfg"]["scroll_offsets"] = d["cfg"].get("scroll_offsets", 0) + 1
-        for st in c["steps"]:
+        for st in c["ops"]:
             d["states"] += 1
             d["wrap"]["on" if st["wrap"] else "off"] += 1
             for key, v in (("width", st["w"]), ("height", st["h"]), ("lines", st["text"].count("\n") + 1)):
